@@ -495,19 +495,185 @@ GROUPS[-1][2].extend([wml("map_down", local_types={"value": W}), wml("map_down_w
                       wml("map_up_with")])
 
 
+# ---- wavelet_matrix.rs: the queries of WaveletMatrix, ValueIter::next, and the default predecessor / successor of ops.rs
+WMX_SELF = dict(lean="WM", var="w", rust="WaveletMatrix", mut=False, order=[],
+                fields={"len": ("len", U), "data": ("data", ("N", "WMCore")), "first": ("first", IV)})
+WMX_ALIAS = {"<Self as Vector>::Item": W, "<SelfasVector>::Item": W, "Self::ValueIter": U}
+WMX_CALLS = {
+    "self.len": dict(lean="w.len", ret=U, monadic=False),
+    "self.start": dict(lean="gen_WaveletMatrix_start m w {0}", ret=U),
+    "self.contains": dict(lean="gen_WaveletMatrix_contains m w {0}", ret=B),
+    "self.rank": dict(lean="gen_WaveletMatrix_rank m w {0} {1}", ret=U),
+    "self.inverse_select": dict(lean="gen_WaveletMatrix_inverse_select m w {0}", ret=("O", ("T", [U, W]))),
+    "<WMCore>.map_down_with": dict(lean="gen_WMCore_map_down_with m {0} {1} {2}", ret=U),
+    "<WMCore>.map_down": dict(lean="gen_WMCore_map_down m {0} {1}", ret=("O", ("T", [U, W]))),
+    "<WMCore>.map_up_with": dict(lean="gen_WMCore_map_up_with m {0} {1} {2}", ret=("O", U)),
+    # a ValueIter is (parent, value, rank): with parent and value fixed it is identified by its rank
+    "self.select_iter": dict(lean="{0}", ret=U, monadic=False),
+}
+
+
+def wmx(fn, impl, **kw):
+    return dict(dict(file="wavelet_matrix.rs", impl=impl, fn=fn, name="gen_WaveletMatrix_" + fn, self=WMX_SELF, calls=WMX_CALLS,
+                     tyalias=WMX_ALIAS), **kw)
+
+
+VI_SELF = dict(lean="(Word × Nat)", var="it", rust="ValueIter", mut=True, order=["value", "rank"],
+               fields={"value": ("1", W), "rank": ("2", U)})
+GROUPS.append(("FnsWM.lean", ["Sds.Model.WM", "Sds.Generated.FnsLoop"], [
+    wmx("start", r"impl WaveletMatrix\s"), wmx("contains", r"impl<'a> VectorIndex<'a> for WaveletMatrix\b"),
+    wmx("rank", r"impl<'a> VectorIndex<'a> for WaveletMatrix\b"), wmx("inverse_select", r"impl<'a> VectorIndex<'a> for WaveletMatrix\b"),
+    wmx("select", r"impl<'a> VectorIndex<'a> for WaveletMatrix\b"), wmx("get", r"impl<'a> Access<'a> for WaveletMatrix\b"),
+    dict(file="wavelet_matrix.rs", impl=r"impl<'a> Iterator for ValueIter<'a>", fn="next", name="gen_ValueIter_next", self=VI_SELF,
+         binders=["(w : WM)"], tyalias={"Self::Item": ("T", [U, U])},
+         calls={"self.parent.len": dict(lean="w.len", ret=U, monadic=False),
+                "self.parent.select": dict(lean="gen_WaveletMatrix_select m w {0} {1}", ret=("O", U))}),
+    dict(file="ops.rs", impl=r"pub trait VectorIndex<'a>", fn="predecessor", name="gen_VectorIndex_predecessor", self=WMX_SELF, calls=WMX_CALLS,
+         tyalias=WMX_ALIAS),
+    dict(file="ops.rs", impl=r"pub trait VectorIndex<'a>", fn="successor", name="gen_VectorIndex_successor", self=WMX_SELF, calls=WMX_CALLS,
+         tyalias=WMX_ALIAS),
+]))
+
+
+CALLS["RawVector::with_capacity"] = dict(lean="RawVec.empty", ret=RV, monadic=False, args=[U])
+CALLS["RawVector::new"] = dict(lean="RawVec.empty", ret=RV, monadic=False)
+CALLS["<RawVector>.push_int"] = dict(lean="gen_RawVector_push_int m {0} {1} {2}", ret=UNIT, mutrecv=True, monadic=True, args=[W, U])
+INT_CALLS_MUT2 = dict(INT_CALLS_MUT, **{
+    "self.data.pop_int": dict(lean="gen_RawVector_pop_int m self_data {0}", ret=("O", W), setvar="self_data", args=[U]),
+    "self.data.clear": dict(lean="RawVec.clear self_data", ret=UNIT, monadic=False, setvar="self_data"),
+})
+GROUPS.append(("FnsVec2.lean", ["Sds.Model.IntVec", "Sds.Generated.FnsVec"], [
+    dict(file="int_vector.rs", impl=r"impl IntVector\s", fn="new", name="gen_IntVector_new", tyalias=ITEM),
+    dict(file="int_vector.rs", impl=r"impl IntVector\s", fn="with_len", name="gen_IntVector_with_len", tyalias=ITEM),
+    dict(file="int_vector.rs", impl=r"impl Pop for IntVector\b", fn="pop", name="gen_IntVector_pop", self=dict(INT_SELF, mut=True),
+         calls=INT_CALLS_MUT2, tyalias=ITEM),
+    dict(file="int_vector.rs", impl=r"impl Resize for IntVector\b", fn="clear", name="gen_IntVector_clear", self=dict(INT_SELF, mut=True),
+         calls=INT_CALLS_MUT2, tyalias=ITEM),
+]))
+
+
+# ---- bit_vector.rs: supports_* / enable_* (C19)
+BVM_SELF = dict(BV_SELF, mut=True, order=["ones", "data", "rank", "select", "select_zero"])
+BVM_CALLS = {
+    "self.supports_rank": dict(lean="gen_BitVector_supports_rank m {self}", ret=B),
+    "self.supports_select": dict(lean="gen_BitVector_supports_select m {self}", ret=B),
+    "self.supports_select_zero": dict(lean="gen_BitVector_supports_select_zero m {self}", ret=B),
+    "self.enable_rank": dict(lean="gen_BitVector_enable_rank m {self}", ret=UNIT, mutself=True),
+    "self.enable_select": dict(lean="gen_BitVector_enable_select m {self}", ret=UNIT, mutself=True),
+    # the support constructors are loops over the whole vector: outside the translated subset, named by their model functions
+    "RankSupport::new": dict(lean="RankSup.build self_data", ret=("N", "RankSupport"), monadic=False, ignore_args=(0,)),
+    "SelectSupport::<Identity>::new": dict(lean="SelSup.build self_data.len (positionsT .ident self_data)", ret=("N", "SelectI"), monadic=False, ignore_args=(0,)),
+    "SelectSupport::<Complement>::new": dict(lean="SelSup.build self_data.len (positionsT .compl self_data)", ret=("N", "SelectC"), monadic=False, ignore_args=(0,)),
+}
+STRUCTS["BitVector"]["ctor_full"] = True
+
+
+def bvm(fn, impl, mut):
+    sf = dict(BVM_SELF, mut=mut)
+    return dict(file="bit_vector.rs", impl=impl, fn=fn, name="gen_BitVector_" + fn, self=sf, calls=BVM_CALLS if mut else {}, tyalias=BV_ALIAS,
+                self_ctor="({ ones := self_ones, data := self_data, rank := self_rank, select := self_select, selectZero := self_select_zero } : BitVector)")
+
+
+GROUPS.append(("FnsEnable.lean", ["Sds.Model.BitVector", "Sds.Model.GenSupport"], [
+    bvm("supports_rank", r"impl<'a> Rank<'a> for BitVector\b", False), bvm("supports_select", r"impl<'a> Select<'a> for BitVector\b", False),
+    bvm("supports_select_zero", r"impl<'a> SelectZero<'a> for BitVector\b", False),
+    bvm("supports_pred_succ", r"impl<'a> PredSucc<'a> for BitVector\b", False),
+    bvm("enable_rank", r"impl<'a> Rank<'a> for BitVector\b", True), bvm("enable_select", r"impl<'a> Select<'a> for BitVector\b", True),
+    bvm("enable_select_zero", r"impl<'a> SelectZero<'a> for BitVector\b", True),
+    bvm("enable_pred_succ", r"impl<'a> PredSucc<'a> for BitVector\b", True),
+]))
+
+
+# ---- the read accessors of the mapped views (the mapped words are an array), count_ones of both raw vectors
+def rawm(fn):
+    d = raw(fn, r"impl<'a> AccessRaw for RawVectorMapper<'a>", False)
+    d["name"] = "gen_RawVectorMapper_" + fn
+    return d
+
+
+GROUPS.append(("FnsView.lean", ["Sds.Model.IntVec", "Sds.Generated.FnsVec"], [
+    rawm("bit"), rawm("int"), rawm("word"), rawm("word_unchecked"),
+    dict(raw("count_ones", r"impl RawVector\s", False), name="gen_RawVector_count_ones", local_types={"result": U}),
+    dict(raw("count_ones", r"impl<'a> RawVectorMapper<'a>", False), name="gen_RawVectorMapper_count_ones"),
+    dict(file="int_vector.rs", impl=r"impl<'a> Access<'a> for IntVectorMapper<'a>", fn="get", name="gen_IntVectorMapper_get",
+         self=dict(INT_SELF, mut=False), calls=dict(INT_CALLS_RO, **{"<RawVector>.int": dict(lean="gen_RawVectorMapper_int m {0} {1} {2}", ret=W)}),
+         tyalias=ITEM),
+]))
+
+
+# ---- writers (C12): `flush` and `write_header` touch the file and are named by their model functions (Model/WriterGlue)
+LW = ("N", "WordList")
+STRUCTS["WordList"] = dict(lean="(List Word)", ctor=None, fields={}, fieldmap={})
+STRUCTS["Budget"] = dict(lean="(Option Nat)", ctor=None, fields={}, fieldmap={})
+RWR_SELF = dict(lean="RawWriter", var="w", rust="RawVectorWriter", mut=True,
+                order=["len", "buf_len", "buf", "file", "userHeader", "header", "body", "budget"],
+                fields={"len": ("len", U), "buf_len": ("bufLen", U), "buf": ("buf", RV), "file": ("isOpen", B),
+                        "userHeader": ("userHeader", LW), "header": ("header", LW), "body": ("body", LW), "budget": ("budget", ("N", "Budget"))})
+RWR_CALLS = {
+    "self.is_open": dict(lean="self_file", ret=B, monadic=False),
+    "self.buf.push_bit": dict(lean="gen_RawVector_push_bit m self_buf {0}", ret=UNIT, setvar="self_buf", args=[B]),
+    "self.buf.push_int": dict(lean="gen_RawVector_push_int m self_buf {0} {1}", ret=UNIT, setvar="self_buf", args=[W, U]),
+    "self.flush": dict(lean="ok (RawWriter.flushG {self} {0})", ret="R", mutself=True),
+    "self.write_header": dict(lean="ok (RawWriter.writeHeaderG {self} ({0}).toList)", ret="R", mutself=True, args=[A]),
+    "self.close_with_header": dict(lean="gen_RawVectorWriter_close_with_header_flag m {self} {0}", ret="R", mutself=True, args=[A]),
+    "Vec::new": dict(lean="(#[] : Array Word)", ret=A, monadic=False),
+}
+RWR_PATHS = {"FlushMode::Safe": ("FlushMode.safe", ("N", "FlushMode")), "FlushMode::Final": ("FlushMode.final", ("N", "FlushMode"))}
+STRUCTS["FlushMode"] = dict(lean="FlushMode", ctor=None, fields={}, fieldmap={})
+
+
+def rwr(fn, impl, **kw):
+    return dict(dict(file="raw_vector.rs", impl=impl, fn=fn, name="gen_RawVectorWriter_" + fn, self=RWR_SELF, calls=RWR_CALLS, paths=RWR_PATHS,
+                     assign_override={"self.file": ("self_file", "false")}), **kw)
+
+
+IWR_SELF = dict(lean="IntWriter", var="w", rust="IntVectorWriter", mut=True, order=["len", "width", "writer"],
+                fields={"len": ("len", U), "width": ("width", U), "writer": ("writer", ("N", "RawVectorWriter"))})
+STRUCTS["RawVectorWriter"] = dict(lean="RawWriter", ctor=None, fields={}, fieldmap={})
+IWR_CALLS = {
+    "self.width": dict(lean="self_width", ret=U, monadic=False),
+    "self.writer.push_int": dict(lean="gen_RawVectorWriter_push_int m self_writer {0} {1}", ret=UNIT, setvar="self_writer", args=[W, U]),
+    "self.writer.close_with_header": dict(lean="gen_RawVectorWriter_close_with_header_flag m self_writer {0}", ret="R", setvar="self_writer", args=[A]),
+}
+WRITER_EPILOGUE = '''
+/-- `close_with_header` as its callers see it: the success flag of its `io::Result<()>` and the new state -/
+def gen_RawVectorWriter_close_with_header_flag (m : Mode) (w : RawWriter) (header : Array Word) : Outcome (Bool × RawWriter) :=
+  match gen_RawVectorWriter_close_with_header m w header with
+  | .ok w' => ok (true, w')
+  | .fault (.err _) => ok (false, w)
+  | .fault f => fault f
+'''
+GROUPS.append(("FnsWriter.lean", ["Sds.Model.WriterGlue", "Sds.Generated.FnsVec"], [
+    rwr("push_bit", r"impl PushRaw for RawVectorWriter\b"), rwr("push_int", r"impl PushRaw for RawVectorWriter\b"),
+    rwr("close_with_header", r"impl RawVectorWriter\s", after=WRITER_EPILOGUE), rwr("close", r"impl RawVectorWriter\s"),
+    dict(file="int_vector.rs", impl=r"impl Push for IntVectorWriter\b", fn="push", name="gen_IntVectorWriter_push", self=IWR_SELF,
+         calls=IWR_CALLS, tyalias=ITEM),
+    dict(file="int_vector.rs", impl=r"impl IntVectorWriter\s", fn="close", name="gen_IntVectorWriter_close", self=IWR_SELF, calls=IWR_CALLS),
+]))
+# a callee that returns io::Result<()> is seen by its callers as (success flag, new state); this wrapper is emitted after
+# the translated `close_with_header` (whose own errors are outcomes)
+
+
+
 def generate_fn_files(read, consts_by_file):
     """read(rel) -> source text; consts_by_file: {rel: {NAME: int}} (module / associated constants visible in that file)"""
     files = {}
+    skipped = []
     for fname, imports, fns in GROUPS:
         parts = []
         for cfg in fns:
             try:
                 parts.append("/-- `%s` of %s, translated from the source -/\n" % (cfg["fn"], cfg["file"])
                              + translate(read(cfg["file"]), cfg, CALLS, consts_by_file.get(cfg["file"], {}),
-                                         dict(STRUCTS, **cfg.get("structs_over", {}))))
+                                         dict(STRUCTS, **cfg.get("structs_over", {}))) + cfg.get("after", ""))
             except Unsupported as e:
-                raise Unsupported("%s::%s: %s" % (cfg["file"], cfg["fn"], e))
+                # fail closed, but only for what depends on this function: the definition is left out, so the equation
+                # that mentions it (and every property theorem built on it) stops checking, while the properties that
+                # do not depend on it are unaffected
+                skipped.append("%s::%s (%s): %s" % (cfg["file"], cfg["fn"], cfg["name"], e))
+                parts.append("-- UNTRANSLATABLE `%s` of %s: %s\n" % (cfg["fn"], cfg["file"], str(e).replace("\n", " ")))
         files[fname] = ("-- GENERATED by tools/gen_lean.py (tools/rs2lean.py) from /repo/src — do not edit.\n"
                         + "".join("import %s\n" % i for i in imports)
                         + "set_option linter.unusedVariables false\nnamespace Sds.Generated\nopen Sds Outcome\n\n" + "\n".join(parts) + "\nend Sds.Generated\n")
+    files["_skipped"] = skipped
     return files
